@@ -58,7 +58,7 @@ func (o Op) String() string {
 		return fmt.Sprintf("%s[%d]", o.Kind, o.N)
 	case "observe":
 		return "observe(all getters)"
-	case "sp.append", "sp.set":
+	case "sp.append", "sp.set", "sp.iterate":
 		return fmt.Sprintf("%s[%d](%q,%q)", o.Kind, o.N, o.A, o.B)
 	case "sp.delete":
 		return fmt.Sprintf("%s[%d](%q)", o.Kind, o.N, o.A)
@@ -294,6 +294,15 @@ func (w *World) Apply(o Op) {
 		case o.Kind == "sp.delete":
 			w.handle(o.N).Delete(o.A)
 			w.ML = model.ListDelete(w.ML, o.A)
+			w.M = nil
+		case o.Kind == "sp.iterate":
+			// Iterate hands out the pairs for modification and writes the list back: a mutator
+			w.handle(o.N).Iterate(func(p *url.NameValuePair) { p.Name += o.A; p.Value += o.B })
+			ml := make([]model.Pair, len(w.ML))
+			for i, p := range w.ML {
+				ml[i] = model.Pair{Name: p.Name + o.A, Value: p.Value + o.B}
+			}
+			w.ML = ml
 			w.M = nil
 		case o.Kind == "sp.sort":
 			w.handle(o.N).Sort()
